@@ -1520,9 +1520,13 @@ Definition obs_ok (t : tr) : Prop := fin t = Live -> status_of t <> Completed /\
 
 Lemma obs_ok_observe t : obs_ok (t_observe t).
 Proof.
-  unfold obs_ok, t_observe. destruct (fin t) eqn:E; try (simpl; congruence).
-  destruct (status_of t) eqn:Es; simpl; try discriminate; rewrite ?E; intros _;
-    replace (status_of t) with (status_of t) by reflexivity; rewrite Es; split; discriminate.
+  unfold obs_ok, t_observe. destruct (fin t) eqn:E; try (intros Hl; congruence).
+  destruct (status_of t) eqn:Es; intros Hl.
+  - rewrite Es. split; discriminate.
+  - simpl in Hl. discriminate.
+  - simpl in Hl. discriminate.
+  - rewrite Es. split; discriminate.
+  - rewrite Es. split; discriminate.
 Qed.
 
 Lemma observe_keeps_ok ids : forall ts j t0, nth_error ts j = Some t0 -> obs_ok t0 ->
